@@ -115,8 +115,17 @@ def sequence(rng):
     seq, collapsed = gen_seq(rng)
     if not seq:
         seq = [("root_attach", {})]
-    a = proto.enc_tree(t)
-    res, _, _ = tx.run_impl(seq, tx.fresh(t, t.data['sid']))
+    src = tx.fresh(t, t.data['sid'])
+    batch = False
+    if rng.random() < 0.2:
+        # the tree as part of a treebank that was read completely before anything was transformed
+        import history
+        others = [mk_tree(rng, plain=True) for _ in range(rng.randint(1, 2))]
+        got = history.batch_read(rng, [t] + others, "export")
+        if got and got[0].data.get('label') == t.data.get('label'):
+            src, batch = got[0], True
+    a = proto.enc_tree(src)
+    res, _, _ = tx.run_impl(seq, src)
     cs = tx.calls_str(seq)
     lines = [Line("corr", "apply", [cs, a], res)]
     if not res.startswith(("ERR", "NONE", "GRAPH")):
@@ -125,8 +134,8 @@ def sequence(rng):
         l = Line("pred", "P.C04.seq", [a, a, "f"], note="implementation returned " + res)
         l.expect = "no-error-expected"
         lines.append(l)
-    return Case("sequence", {"tree": proto.pretty_tree(t), "calls": cs, "result": res[:40]}, lines,
-                nontrivial=len(seq) > 1, tags=["len%d" % len(seq)])
+    return Case("sequence", {"tree": proto.pretty_tree(t), "calls": cs, "result": res[:40], "read-as-part-of-a-treebank": batch}, lines,
+                nontrivial=len(seq) > 1, tags=["len%d" % len(seq)] + (["batch-read"] if batch else []))
 
 
 def cli_sequence(rng):
